@@ -151,6 +151,20 @@ def model (line : String) : String :=
       s!"{hexOf raw} {showHeader (deserializeHeader raw)}"
   | _ => "bad-op"
 
+def isPrefix (a b : Bytes) : Bool := decide (a.length ≤ b.length) && decide (b.take a.length = a)
+
+/-- the witness format written even when no input has a witness (marker, flag, empty stacks):
+    btcd accepts it on decode although it never writes it -/
+def serializeFlagged (tx : Tx) : Bytes :=
+  le 4 tx.version ++ [0, 1] ++ csEnc tx.ins.length ++ tx.ins.flatMap encTxIn ++
+  csEnc tx.outs.length ++ tx.outs.flatMap encTxOut ++
+  tx.ins.flatMap (fun i => encWitness i.witness) ++ le 4 tx.locktime
+
+/-- encode∘decode on the implementation's observation: a successfully decoded transaction is
+    well-formed and re-encodes to exactly the bytes the decoder consumed. -/
+def rawHolds (b : Bytes) (tx : Tx) : Bool :=
+  wfTx tx && (isPrefix (serialize true tx) b || isPrefix (serializeFlagged tx) b)
+
 def monitor (op obs : String) : String :=
   match splitWs op, splitWs obs with
   | ["tx", v, l, i, o], [s, w, ds, dw, sv, si, so, sl, he] =>
@@ -161,13 +175,23 @@ def monitor (op obs : String) : String :=
                           l := sl, hashEq := he = "1" }
       if holdsTx tx ob then "ok" else "FAIL tx-roundtrip"
     | _, _, _, _, _, _, _, _, _ => "FAIL unparsable-observation"
-  | ["raw", _], _ => "ok"
+  | ["raw", h], [r] =>
+    match bytesOf h, parseDec r with
+    | some _, some (.error _) => "ok"
+    | some b, some (.ok tx) => if rawHolds b tx then "ok" else "FAIL decoded-tx-does-not-reencode-to-input"
+    | _, _ => "FAIL unparsable-observation"
   | ["cs", n], [h, v, len] =>
     match n.toNat?, bytesOf h, v.toNat?, len.toNat? with
     | some n, some b, some v, some len =>
       if v = n && len = b.length && b.length = csSize n then "ok" else "FAIL compact-size-roundtrip"
     | _, _, _, _ => "FAIL unparsable-observation"
-  | ["csraw", _], _ => "ok"
+  | ["csraw", h], [v, len] =>
+    match bytesOf h, v.toNat?, len.toNat? with
+    | some b, some v, some len =>
+      if csEnc v = b.take len && len = csSize v && decide (v < 18446744073709551616) then "ok"
+      else "FAIL compact-size-noncanonical-accepted"
+    | _, _, _ => "FAIL unparsable-observation"
+  | ["csraw", _], [e] => if (errOf e).isSome then "ok" else "FAIL unparsable-observation"
   | ["script", h], [d, back] =>
     match bytesOf h, bytesOf d, bytesOf back with
     | some s, some d, some back =>
@@ -184,7 +208,18 @@ def monitor (op obs : String) : String :=
       if bi = b && br = b && nr = b.reverse && si.toList = hexEnc b && sr.toList = hexEnc b.reverse
          && st = si then "ok" else "FAIL hash-roundtrip"
     | _, _, _, _ => "FAIL hash-roundtrip"
-  | ["hashstr", _, _], _ => "ok"
+  | ["hashstr", str, o], [r] =>
+    let str := if str = "_" then "" else str
+    match errOf r, bytesOf r with
+    | some .size, _ => if str.length ≠ 64 then "ok" else "FAIL hash-string-size-error-on-64-chars"
+    | some .hex, _ =>
+      if str.length = 64 && (hexDec str.toList).isNone then "ok" else "FAIL hash-string-hex-error-on-valid-hex"
+    | some _, _ => "FAIL unexpected-error-class"
+    | none, some h =>
+      let shown := if o = "1" then h.reverse else h
+      if h.length = 32 && hexEnc shown = str.toList.map Char.toLower then "ok"
+      else "FAIL hash-string-roundtrip"
+    | none, none => "FAIL unparsable-observation"
   | ["hdr", h], [_, back] => if back = h then "ok" else "FAIL header-roundtrip"
   | ["hdrf", f], [_, back] => if back = f then "ok" else "FAIL header-roundtrip"
   | _, _ => "FAIL unparsable-observation"
